@@ -33,6 +33,165 @@ def impl_blocks(src, rel):
     return out
 
 
+def brace_block(src, i):
+    """src[i] == '{': the text up to the matching '}' (inclusive)."""
+    depth, j = 0, i
+    while j < len(src):
+        if src[j] == "{":
+            depth += 1
+        elif src[j] == "}":
+            depth -= 1
+            if depth == 0:
+                return src[i:j + 1]
+        j += 1
+    raise exlib.ExtractError("unbalanced braces")
+
+
+def private_fns(src):
+    """name -> (parameter names without self, body) for every non-`pub` fn of the file."""
+    out = {}
+    for m in re.finditer(r"(?<![\w])(pub(?:\([a-z]+\))?\s+)?fn\s+(\w+)\s*(?:<[^>]*>)?\s*\(", src):
+        if m.group(1):
+            continue
+        # parameter list with nested parentheses
+        i = m.end() - 1
+        depth, j = 0, i
+        while j < len(src):
+            if src[j] == "(":
+                depth += 1
+            elif src[j] == ")":
+                depth -= 1
+                if depth == 0:
+                    break
+            j += 1
+        params = []
+        for part in split_top(src[i + 1:j]):
+            part = part.strip()
+            if not part or re.match(r"&?\s*(?:'\w+\s+)?(?:mut\s+)?self\b", part):
+                continue
+            pm = re.match(r"(?:mut\s+)?(\w+)\s*:", part)
+            if pm:
+                params.append(pm.group(1))
+        k = src.find("{", j)
+        semi = src.find(";", j)
+        if k < 0 or (0 <= semi < k):
+            continue
+        out[m.group(2)] = (params, brace_block(src, k))
+    return out
+
+
+def split_top(text):
+    """split on commas that are not nested in (), [], {} or <>-free closures"""
+    parts, depth, cur = [], 0, ""
+    for ch in text:
+        if ch in "([{":
+            depth += 1
+        elif ch in ")]}":
+            depth -= 1
+        if ch == "," and depth == 0:
+            parts.append(cur)
+            cur = ""
+        else:
+            cur += ch
+    if cur.strip():
+        parts.append(cur)
+    return parts
+
+
+def inline_helpers(body, helpers, rounds=4):
+    """Replace calls `self.h(args)` / `h(args)` of private helpers by their bodies."""
+    for _ in range(rounds):
+        changed = False
+        for name, (params, hbody) in helpers.items():
+            if name in ("read", "new", "new_impl", "from_header", "empty", "fmt", "read_more", "read_kind", "read_item"):
+                continue
+            pat = re.compile(r"(?:(?<![\w.:])|(?<=self\.))%s\(" % re.escape(name))
+            pos = 0
+            while True:
+                m = pat.search(body, pos)
+                if not m:
+                    break
+                start = m.start()
+                if body[max(0, start - 5):start] == "self.":
+                    start -= 5
+                elif body[max(0, start - 3):start].rstrip().endswith("fn"):
+                    pos = m.end()
+                    continue
+                i = m.end() - 1
+                depth, j = 0, i
+                while j < len(body):
+                    if body[j] == "(":
+                        depth += 1
+                    elif body[j] == ")":
+                        depth -= 1
+                        if depth == 0:
+                            break
+                    j += 1
+                args = [a.strip() for a in split_top(body[i + 1:j])]
+                if len(args) != len(params):
+                    pos = m.end()
+                    continue
+                rep = hbody
+                for pn, av in zip(params, args):
+                    rep = re.sub(r"(?<![\w.])%s\b" % re.escape(pn), "(" + av + ")" if not re.fullmatch(r"[\w.]+", av) else av, rep)
+                body = body[:start] + rep + body[j + 1:]
+                pos = start + len(rep)
+                changed = True
+        if not changed:
+            break
+    return body
+
+
+FIELDS = "tick|prev_player_cid|in_tick|next_item_kind|max_cid"
+
+
+def rhs_class(field, rhs):
+    r = re.sub(r"\s+", "", rhs)
+    if field == "tick":
+        ops = sorted(set(re.findall(r"(checked_add|checked_sub|wrapping_add|wrapping_sub|saturating_add|saturating_sub|overflowing_add|unchecked_add)", r)))
+        if re.search(r"[\w)\]]\+[\w(]", r):
+            ops.append("plus")
+        if re.search(r"[\w)\]]-[\w(]", r):
+            ops.append("minus")
+        err = "TickOverflow" if "TickOverflow" in r else "no-error"
+        return "/".join(ops) + ":" + err
+    if field in ("prev_player_cid", "next_item_kind"):
+        if r.startswith("None"):
+            return "None"
+        if r.startswith("Some("):
+            return "Some"
+        return r
+    if field == "max_cid":
+        return "max" if "max(" in r else r
+    return r
+
+
+def effects(text):
+    out = set()
+    for f, e in re.findall(r"self\.(%s)\s*=(?!=)\s*([^;]*?);" % FIELDS, text, flags=re.S):
+        out.add((f, rhs_class(f, e)))
+    return sorted(out)
+
+
+def lean_pairs(ps):
+    return "[" + ", ".join('("%s", "%s")' % (a, b.replace('"', "'")) for a, b in ps) + "]"
+
+
+def prev_cmp(body, rel):
+    """The comparison between the previous player's client id and `cid`, as `prev OP cid`."""
+    i = body.find("prev_player_cid")
+    flip = {">=": "<=", "<=": ">=", ">": "<", "<": ">", "==": "==", "!=": "!="}
+    while i >= 0:
+        window = body[i:i + 260]
+        for l, op, r in re.findall(r"\b(\w+)\s*(>=|<=|==|!=|>|<)\s*(\w+)\b", window):
+            if r == "cid" and l != "cid":
+                return "prev %s cid" % op
+            if l == "cid" and r != "cid":
+                return "prev %s cid" % flip[op]
+        i = body.find("prev_player_cid", i + 1)
+    raise exlib.ExtractError("Reader::read of %s no longer compares prev_player_cid with cid" % rel)
+
+
 def run(repo):
     rel = "teehistorian/src/format/item.rs"
     src = exlib.strip_rust_comments(exlib.read(repo, rel))
@@ -134,18 +293,27 @@ def run(repo):
                     for a, g, v, r in karms) + "]\n\n"
 
     # --- literals of the hand-modelled functions
-    for (txt, fn, r) in ((raw, "read_more", rel_raw), (raw, "read", rel_raw), (raw, "read_kind", rel_raw),
-                         (raw, "read_item", rel_raw), (raw, "empty", rel_raw)):
+    for (txt, fn, r) in ((raw, "read_more", rel_raw), (raw, "empty", rel_raw)):
         b = exlib.fn_body(txt, fn, 0, r)
         s += "/-- integer literals of `fn %s` in %s, in source order -/\n" % (fn, r)
         s += "def lits_%s : List Nat := %s\n\n" % (fn, exlib.lean_nat_list(exlib.int_literals(b)))
-    # the statements of `Reader::read` that assign the tick state, in source order
-    b = exlib.fn_body(raw, "read", 0, rel_raw)
-    assigns = re.findall(r"self\.(tick|prev_player_cid|in_tick|next_item_kind|max_cid)\s*=\s*([^;]*?);", b, flags=re.S)
-    s += "/-- assignments to the tick state in `Reader::read`, in source order (field, right-hand side) -/\n"
-    s += "def readAssigns : List (String × String) := [\n"
-    s += ",\n".join("  (%s, %s)" % (lean_str(f), lean_str(re.sub(r"\s+", " ", e).strip().replace('"', "'"))) for f, e in assigns)
-    s += "]\n\n"
+    # What `Reader::read` does to the tick state, in a form that survives behaviour-preserving
+    # refactorings: private helpers (methods and free functions of raw.rs) are inlined at their
+    # call sites with the arguments substituted, right-hand sides are reduced to a class (which
+    # arithmetic, which constructor, which literal) so that local renames do not matter, and the
+    # result is a sorted set, so that statement order and duplication do not matter.
+    body = inline_helpers(exlib.fn_body(raw, "read", 0, rel_raw), private_fns(raw))
+    s += "/-- tick-state effects of `Reader::read` (private helpers inlined): field, class of the\n"
+    s += "right-hand side; sorted, without duplicates -/\n"
+    s += "def readEffects : List (String × String) := %s\n\n" % lean_pairs(effects(body))
+    m = re.search(r"format::Item::TickSkip\(\w+\)\s*=>\s*\{", body)
+    if not m:
+        raise exlib.ExtractError("no `format::Item::TickSkip(_) => {` arm in Reader::read of %s" % rel_raw)
+    arm = brace_block(body, m.end() - 1)
+    s += "/-- the same for the `TickSkip` arm alone -/\n"
+    s += "def tickSkipEffects : List (String × String) := %s\n\n" % lean_pairs(effects(arm))
+    s += "/-- the comparison that decides the implicit tick, normalised to `prev OP cid` -/\n"
+    s += "def implicitTickCmp : String := %s\n\n" % lean_str(prev_cmp(body, rel_raw))
     # --- header framing, version dispatch, file.rs callback mapping (shape of the source)
     def squash(t):
         return re.sub(r"\s+", " ", t).strip().replace('"', "'")
